@@ -59,7 +59,40 @@ def _ok(pre, post):
             ('buffer-unchanged', buffer_same(pre, post), ('C17',))]
 
 
+def _pf_len(pre):
+    return Sub(pre, 'lengthfield')
+
+
+def _pf_lfsize(pre):
+    c = _pf_len(pre)
+    return Sub(pre, 'lengthfield', kind='sizeof', heap=(c.H, c.D))
+
+
+def _pf_guard(pre):
+    from .prims import _param_truth
+    incl = pre.eng.truth(pre.self.fields['includelength'], pre.st)
+    return t.and_(_pf_len(pre).ok, t.implies(incl, _pf_lfsize(pre).ok))
+
+
+def _pf_ok(pre, post):
+    o, o2 = S_(pre), post.obj('stream')
+    c = _pf_len(pre)
+    incl = pre.eng.truth(pre.self.fields['includelength'], pre.st)
+    n = t.sub(t.app('toint', t.INT, c.val), t.ite(incl, _pf_lfsize(pre).val, t.ZERO))
+    return [('answer-is-the-length-field-bytes-plus-the-payload-length-it-announces', size_is(post, t.add(t.sub(c.end, o.pos), n))),
+            ('stream-stands-after-the-length-field', t.eq(o2.pos, c.end)),
+            ('buffer-unchanged', buffer_same(pre, post), ('C17',))]
+
+
 def register_prefixedarray(src):
+    from .prims import fcontract
+    if src.has('%s:Prefixed._actualsize' % CORE):
+        # Prefixed measures itself by reading its length field: the payload length is what the field announces, less the size of the
+        # field itself when the announced length includes it
+        fcontract('Prefixed', '_actualsize', [
+            Case('ok', 'return', _pf_guard, ensures=_pf_ok, rkind=rk_dyn, modifies=['stream']),
+            Case('no-answer', 'raise', lambda pre: t.not_(_pf_guard(pre)), ensures=generic_raise, modifies=['stream']),
+        ], tags=T)
     if not src.has(QUAL):
         return
     c = FnContract(QUAL, [
